@@ -30,6 +30,7 @@ func init() {
 			{"C10-R4", "oldest policy wins", c10r4},
 			{"C10-R5", "ambient conversion: wider levels are consulted only where the narrower ones are UNSET", c10r5},
 			{"C10-R6", "who may use a namespace/mesh-level mode directly", c10r6},
+			{"C10-R7", "ambient: PERMISSIVE and DISABLE are treated alike wherever a non-STRICT mode is looked for", c10r7},
 		},
 	})
 }
@@ -678,4 +679,67 @@ func c10r6(c *Ctx) {
 	}
 	c.Check("GetNamespaceMutualTLSMode callers found", token.NoPos, n >= 1, "no caller found")
 	c.Floor(2)
+}
+
+
+// C10-R7: for ztunnel PERMISSIVE and DISABLE both mean "plaintext accepted"; the ambient conversion looks for
+// "a non-STRICT mode" as isMtlsModePermissive(x) || isMtlsModeDisable(x). Every test isMtlsModePermissive(x) in the
+// package is paired with isMtlsModeDisable on the same x (the failing edge of the first leads straight to the second):
+// a lone PERMISSIVE test ignores a DISABLE at that level, so the port keeps the inherited STRICT mode in ambient while a
+// sidecar disables mTLS on it.
+func c10r7(c *Ctx) {
+	p := c.P
+	perm := p.FuncObj(pkgAmbient, "", "isMtlsModePermissive")
+	dis := p.FuncObj(pkgAmbient, "", "isMtlsModeDisable")
+	n := 0
+	for _, fn := range p.AllFuncs {
+		if funcPkgPath(fn) != istioMod+"/"+pkgAmbient || strings.HasSuffix(p.Fset.Position(fn.Pos()).Filename, "_test.go") {
+			continue
+		}
+		ord := 0
+		for _, call := range callsIn(fn, perm) {
+			ord++
+			n++
+			arg := call.Common().Args[0]
+			paired := false
+			for _, i := range allIfs(fn) {
+				v, neg := stripNot(i.Cond)
+				if v != call.Value() {
+					continue
+				}
+				fIdx := 1
+				if neg {
+					fIdx = 0
+				}
+				for _, ins := range i.Block().Succs[fIdx].Instrs {
+					if c2, ok := ins.(*ssa.Call); ok && isCallTo(c2, dis) && (c2.Call.Args[0] == arg || sameValue(c2.Call.Args[0], arg)) {
+						paired = true
+					}
+				}
+			}
+			// or in the other order: Disable first, Permissive on its failing edge
+			for _, c2 := range callsIn(fn, dis) {
+				if !(c2.Common().Args[0] == arg || sameValue(c2.Common().Args[0], arg)) {
+					continue
+				}
+				for _, i := range allIfs(fn) {
+					v, neg := stripNot(i.Cond)
+					if v != c2.Value() {
+						continue
+					}
+					fIdx := 1
+					if neg {
+						fIdx = 0
+					}
+					if i.Block().Succs[fIdx] == call.Block() {
+						paired = true
+					}
+				}
+			}
+			c.Check(fmt.Sprintf("ambient: PERMISSIVE test is paired with DISABLE: %s (#%d)", stableFnName(fn), ord), call.Pos(), paired,
+				"this test looks for PERMISSIVE only; the other places in this package that look for a non-STRICT mode test PERMISSIVE || DISABLE. A DISABLE here is ignored: with a STRICT mesh/namespace policy, an UNSET workload mode and a DISABLE port, the workload keeps referencing only the static STRICT policy, so ztunnel requires mTLS on a port for which a sidecar disables it")
+		}
+	}
+	c.Check("ambient: PERMISSIVE tests found", token.NoPos, n >= 3, "fewer isMtlsModePermissive call sites than confirmed by hand")
+	c.Floor(4)
 }
